@@ -489,7 +489,7 @@ class RtcpRtpfbPacket:
             pid = self.lost[0]
             blp = 0
             for p in self.lost[1:]:
-                d = p - pid - 1
+                d = (p - pid - 1) & 0xFFFF
                 if d < 16:
                     blp |= 1 << d
                 else:
@@ -511,7 +511,7 @@ class RtcpRtpfbPacket:
             lost.append(pid)
             for d in range(0, 16):
                 if (blp >> d) & 1:
-                    lost.append(pid + d + 1)
+                    lost.append((pid + d + 1) & 0xFFFF)
         return cls(fmt=fmt, ssrc=ssrc, media_ssrc=media_ssrc, lost=lost)
 
 
